@@ -3,22 +3,24 @@ CONSTANTS
  ReadSizes = {1, 2, 3, 7}
  MaxDrops = 2
  MaxFails = 1
- MaxSeeks = 1
+ MaxSeeks = 2
  MaxAgain = 1
  RetryLimit = 3
  Schemes = {"reg", "ocidir"}
  Vias = {"reader"}
  Withs = {TRUE, FALSE}
- Chunks = {1, 7}
+ Chunks = {1, 2, 7}
  LyingSizes = TRUE
  InlineData = TRUE
  Conc = 3
  Probes = TRUE
- Exts = {TRUE, FALSE}
+ Exts = {0, 1, 2}
  KeepSlots = FALSE
  TarUnverified = FALSE
  MTs = {TRUE, FALSE}
  DigestHdrs = {"absent", "echo", "served", "servedother", "garbage"}
+ Sts = {"std", "alt"}
+ DropKinds = {"ueof"}
 INIT GInit
 NEXT GNext
 INVARIANTS Emit
